@@ -474,6 +474,14 @@ pub fn run(which: &str, tier: Tier, rep: &mut Report) -> (String, String) {
         "a\u{7FF}\u{800},\u{FFFF}", "\u{FEFF}a,\u{10000}\u{10FFFF} ", " \u{BF}\u{FF}ñ\u{85} "] {
         inputs.push(s.to_string());
     }
+    // every continuation byte value 0x80..=0xBF as the last byte of a char next to white space at either end (byte-level
+    // white-space tests must not look into multi-byte chars; seed C13-9 masked the high bit)
+    for c in '\u{80}'..='\u{BF}' {
+        inputs.push(format!(" {c} "));
+    }
+    for c in ['\u{A0}', '\u{2028}', '\u{3000}', '\u{1680}', '\u{10A0}', '\u{1F3A0}'] {
+        inputs.push(format!("{c}\t a{c}"));
+    }
     if tier == Tier::Miri {
         inputs = vec![" a,ñ".to_string()];
     }
@@ -532,7 +540,7 @@ pub fn run(which: &str, tier: Tier, rep: &mut Report) -> (String, String) {
     };
     (
         rule.into(),
-        format!("inputs: all strings of <= {n} atoms over {atoms:?} ({}) + 12 structured longer inputs; constructors new, with_start_offset(_,0), with_start_offset(_,5); {} operations (patterns a , ñ \"a,\" \",,\" \" \" \"\" 'a' 'ñ' ','; skip/skip_back 0,1,2,3,5,1000,usize::MAX; parse_u8/i8/u64(parse_with!)/i128/bool); protocol family over {{a,b}}<= {} with delimiters aab, aba, ab, aa", inputs.len(), ops().len(), tier.pick(6, 8, 0)),
+        format!("inputs: all strings of <= {n} atoms over {atoms:?} ({}) + 12 structured longer inputs + 70 inputs placing every continuation byte value and 6 Unicode white-space chars next to ASCII white space; constructors new, with_start_offset(_,0), with_start_offset(_,5); {} operations (patterns a , ñ \"a,\" \",,\" \" \" \"\" 'a' 'ñ' ','; skip/skip_back 0,1,2,3,5,1000,usize::MAX; parse_u8/i8/u64(parse_with!)/i128/bool); protocol family over {{a,b}}<= {} with delimiters aab, aba, ab, aa", inputs.len(), ops().len(), tier.pick(6, 8, 0)),
     )
 }
 
